@@ -48,8 +48,12 @@ def check(pid, tier, replay=None):
     # class), for files with and without records
     stamps = dict(Rels=S(0, 7), FieldClasses=S("one_zlast", "one_zopen", "max_zlast", "max_zopen", "zero_mlast", "zero_mopen"),
                   BlobLens=S(0, 1), RecShapes="{<<>>, <<<<0, 1>>>>, <<<<7, 0>>, <<0, 3>>>>}", EmitOneIn=1)
+    # fourth slice: one record of every payload length 0..300 (thorough: ..1100) under both forms of the record header
+    top = 300 if tier == "quick" else 1100
+    paylens = dict(Rels=S(7), FieldClasses=S("one"), BlobLens=S(0),
+                   RecShapes="{" + ", ".join("<<<<%d, %d>>>>" % (r, k) for r in (0, 7) for k in range(0, top + 1)) + "}", EmitOneIn=1)
     slices = [dict(name="main", consts=consts, n_beh=n), dict(name="bigblob", consts=big, n_beh=None),
-              dict(name="stamps", consts=stamps, n_beh=None)]
+              dict(name="stamps", consts=stamps, n_beh=None), dict(name="paylens", consts=paylens, n_beh=None)]
     return pipe.standard_check(
         pid, tier, family="cdrfile", base_module="CdrFileMC", consts=consts, slices=slices,
         invariants=["InvWellFormed", "InvSpecRoundTrip"], n_beh=n,
